@@ -29,6 +29,8 @@ type Prog struct {
 	Whole   bool // dependencies loaded with syntax (thorough)
 	GoArch  string
 
+	Norm *normStats // what the normalisation did (nil if switched off)
+
 	ext map[string]*types.Package // every package reachable through imports, by path
 }
 
@@ -43,6 +45,7 @@ type LoadOpts struct {
 	GoArch  string            // "" = host
 	Overlay map[string][]byte // extra in-memory files (positive controls)
 	Tags    string
+	NoNorm  bool // analyse the program as written (no helper expansion); debugging only
 }
 
 func Load(o LoadOpts) (*Prog, error) {
@@ -111,6 +114,13 @@ func Load(o LoadOpts) (*Prog, error) {
 		}
 		if len(p.Pkgs[need].Syntax) == 0 {
 			return nil, fmt.Errorf("package %s has no syntax", need)
+		}
+	}
+	if !o.NoNorm {
+		st, err := normalizePackages(p.All, p.Fset, p.isGenerated)
+		p.Norm = st
+		if err != nil {
+			return nil, fmt.Errorf("normalisation: %w", err)
 		}
 	}
 	packages.Visit(pkgs, nil, func(pk *packages.Package) {
@@ -302,6 +312,11 @@ func (p *Prog) SrcFuncs(pkgs ...string) []*ssa.Function {
 	add = func(fn *ssa.Function) {
 		if fn == nil || seen[fn] || fn.Blocks == nil {
 			return
+		}
+		if p.Norm != nil {
+			if f, ok := fn.Object().(*types.Func); ok && p.Norm.Dead[f.Origin().FullName()] {
+				return // every call of this helper was expanded in place; the definition itself is dead
+			}
 		}
 		seen[fn] = true
 		out = append(out, fn)
